@@ -238,13 +238,8 @@ theorem inv_removeBlock {z : ZSet} (h : Inv z) (a rem b : List Item) (hsl : z.sl
 
 /-! ### preservation -/
 
-/-- the signed-zero condition: re-adding a member with a score that is IEEE-equal to its current
-    score keeps the bit pattern (false only for +0 over −0 or −0 over +0) -/
-def ZeroSafe (z : ZSet) (m : Bytes) (s : F64) : Prop :=
-  ∀ old, AList.get? z.dict m = some old → F64.eq s old = true → s = old
-
-theorem inv_zAdd {z : ZSet} (h : Inv z) (m : Bytes) (s : F64) (hs : F64.isNaN s = false)
-    (hz : ZeroSafe z m s) : Inv (zAdd z m s).1 := by
+theorem inv_zAdd {z : ZSet} (h : Inv z) (m : Bytes) (s : F64) (hs : F64.isNaN s = false) :
+    Inv (zAdd z m s).1 := by
   have hg : Good (s, m) := hs
   unfold zAdd
   cases hget : AList.get? z.dict m with
@@ -271,8 +266,10 @@ theorem inv_zAdd {z : ZSet} (h : Inv z) (m : Bytes) (s : F64) (hs : F64.isNaN s 
   | some old =>
     simp only
     have hold : (old, m) ∈ z.sl := (h.get_iff old m).mp hget
-    by_cases hne : F64.ne s old = true
-    · rw [if_pos hne]
+    by_cases heq : F64.eq s old = true
+    · rw [if_pos heq]
+      exact h
+    · rw [if_neg heq]
       simp only
       have hsub := slRemove_sublist m old z.sl
       have hrm := fun x => mem_slRemove m old x z.sl h.slPW h.good hold
@@ -309,32 +306,6 @@ theorem inv_zAdd {z : ZSet} (h : Inv z) (m : Bytes) (s : F64) (hs : F64.isNaN s 
             intro ee
             simp only [Prod.mk.injEq] at ee
             exact e' ee.2
-    · rw [if_neg hne]
-      have heq : F64.eq s old = true := by
-        simpa [F64.ne] using hne
-      have hso : s = old := hz old hget heq
-      subst hso
-      have hmem : ∀ q, q ∈ AList.set z.dict m s ↔ q ∈ z.dict := by
-        intro q
-        rw [mem_set m s q z.dict h.dictPW]
-        constructor
-        · rintro (e | ⟨e, _⟩)
-          · rw [e]; exact (h.mem_iff s m).mp hold
-          · exact e
-        · intro e
-          by_cases hq : q.1 = m
-          · left
-            obtain ⟨k, v⟩ := q
-            simp only at hq
-            subst hq
-            rw [pairwise_key_unique z.dict h.dictPW k v s e ((h.mem_iff s k).mp hold)]
-          · exact Or.inr ⟨e, hq⟩
-      refine ⟨set_pairwise m s z.dict h.dictPW, ?_, h.slPW, ?_⟩
-      · intro p hp
-        exact h.noNaN p ((hmem p).mp hp)
-      · intro s' m'
-        show (s', m') ∈ z.sl ↔ (m', s') ∈ AList.set z.dict m s
-        rw [hmem, h.mem_iff]
 
 theorem inv_zRem_step {z : ZSet} (h : Inv z) (m : Bytes) (sc : F64)
     (hget : AList.get? z.dict m = some sc) :
@@ -434,21 +405,18 @@ theorem inv_zRemRangeByRank {z : ZSet} (h : Inv z) (start stop : Int) :
   rw [zRemRangeByRank_core]
   exact inv_remByRankCore h _ _
 
-theorem inv_zAddXX {z : ZSet} (h : Inv z) (m : Bytes) (s : F64) (hs : F64.isNaN s = false)
-    (hz : ZeroSafe z m s) : Inv (zAddXX z m s).1 := by
+theorem inv_zAddXX {z : ZSet} (h : Inv z) (m : Bytes) (s : F64) (hs : F64.isNaN s = false) :
+    Inv (zAddXX z m s).1 := by
   unfold zAddXX
   split
-  · exact inv_zAdd h m s hs hz
+  · exact inv_zAdd h m s hs
   · exact h
 
 theorem inv_zAddNX {z : ZSet} (h : Inv z) (m : Bytes) (s : F64) (hs : F64.isNaN s = false) :
     Inv (zAddNX z m s).1 := by
   unfold zAddNX
   split
-  · rename_i hc
-    refine inv_zAdd h m s hs ?_
-    intro old hget
-    simp [AList.contains, hget] at hc
+  · exact inv_zAdd h m s hs
   · exact h
 
 theorem inv_zAddLT {z : ZSet} (h : Inv z) (m : Bytes) (s : F64) (hs : F64.isNaN s = false) :
@@ -459,13 +427,7 @@ theorem inv_zAddLT {z : ZSet} (h : Inv z) (m : Bytes) (s : F64) (hs : F64.isNaN 
   | some e =>
     simp only
     split
-    · rename_i hgt
-      refine inv_zAdd h m s hs ?_
-      intro old hget' heq
-      rw [hget] at hget'
-      cases hget'
-      simp only [F64.gt, F64.lt, F64.eq, Bool.and_eq_true, decide_eq_true_eq, beq_iff_eq] at hgt heq
-      omega
+    · exact inv_zAdd h m s hs
     · exact h
 
 theorem inv_zAddGT {z : ZSet} (h : Inv z) (m : Bytes) (s : F64) (hs : F64.isNaN s = false) :
@@ -476,13 +438,7 @@ theorem inv_zAddGT {z : ZSet} (h : Inv z) (m : Bytes) (s : F64) (hs : F64.isNaN 
   | some e =>
     simp only
     split
-    · rename_i hgt
-      refine inv_zAdd h m s hs ?_
-      intro old hget' heq
-      rw [hget] at hget'
-      cases hget'
-      simp only [F64.lt, F64.eq, Bool.and_eq_true, decide_eq_true_eq, beq_iff_eq] at hgt heq
-      omega
+    · exact inv_zAdd h m s hs
     · exact h
 
 end NodisVerif.Proofs.C04
